@@ -73,6 +73,12 @@ func (c *PushedAuthorizeHandler) HandlePushedAuthorizeEndpointRequest(ctx contex
 
 	requestURI := fmt.Sprintf("%s%s", configProvider.GetPushedAuthorizeRequestURIPrefix(ctx), b64.EncodeToString(stateKey))
 
+	// The client credentials sent in the body authenticated this request; they are not part of the
+	// authorization request and must never reach storage.
+	for _, parameter := range []string{"client_secret", "client_assertion", "client_assertion_type"} {
+		ar.GetRequestForm().Del(parameter)
+	}
+
 	// store
 	if err = storage.CreatePARSession(ctx, requestURI, ar); err != nil {
 		return errorsx.WithStack(fosite.ErrServerError.WithHint("Unable to store the PAR session").WithWrap(err).WithDebug(err.Error()))
